@@ -371,11 +371,11 @@ theorem ticks_traffic (hna : MgrNotAll cfg) (hord : OrderGood cfg) {s : State} (
     (f0 : Frame) (h0 : f0.dest = 0) :
     ∃ sL, Pres s sL ∧ IKP s sL ∧ RK s sL ∧ Top cfg sL ∧ ∀ o,
       (dataSends isTrafficB (ticks cfg s).out).filter (·.1 == o) = (dataSends isTrafficB s.out).filter (·.1 == o) ++
-        (if s.now - s.tTraffic > 1000 ∧ recvB cfg sL cfg.mtTraffic f0 o = true
+        (if s.now - s.tTraffic > cfg.pTraffic ∧ recvB cfg sL cfg.mtTraffic f0 o = true
          then (trafficFrames cfg s.trafficSeq s.traffic).map (fun f => (o, f)) else []) := by
   have hB := tag_traffic cfg
   have hC := ctlIO_traffic
-  have hactive : ∀ s2 : State, QE isTrafficB s2 (if s2.now - s2.tInfo > 5000 then sendActive cfg s2 else s2) := by
+  have hactive : ∀ s2 : State, QE isTrafficB s2 (if s2.now - s2.tInfo > cfg.pInfo then sendActive cfg s2 else s2) := by
     intro s2
     split
     · unfold sendActive
@@ -383,11 +383,11 @@ theorem ticks_traffic (hna : MgrNotAll cfg) (hord : OrderGood cfg) {s : State} (
     · exact QE.refl _ _
   unfold ticks
   dsimp only
-  obtain ⟨tf1, t1, id1⟩ := timingPart_tf ok hfuel hT hidle (cfg.timing && decide (s.now - s.tTiming > 900))
-  generalize (if (cfg.timing && decide (s.now - s.tTiming > 900)) = true then
+  obtain ⟨tf1, t1, id1⟩ := timingPart_tf ok hfuel hT hidle (cfg.timing && decide (s.now - s.tTiming > cfg.pTiming))
+  generalize (if (cfg.timing && decide (s.now - s.tTiming > cfg.pTiming)) = true then
       { sendTiming cfg s with tTiming := s.now } else s) = s1 at tf1 t1 id1 ⊢
   rw [tf1.now, tf1.tR]
-  by_cases ht2 : s.now - s.tTraffic > 1000
+  by_cases ht2 : s.now - s.tTraffic > cfg.pTraffic
   · simp only [ht2, if_true, true_and]
     obtain ⟨sL, tfL, hTL, hrows⟩ := sendTraffic_rows ok hfuel hna hord t1 f0 h0
     have tf := tf1.trans tfL
